@@ -206,7 +206,7 @@ theorem last_inv (ok : CfgOK c) {r : Rp} (wf : WF c r) {k : Cursor} {rest : List
         by_cases hp : isPlain c bits = true
         · rw [if_pos hp] at wf ⊢
           rw [hb, lastNonzero_eq_nz]
-          rw [elems_plain hp]
+          rw [elems_plain_rows hp]
           unfold plainRest
           rw [List.drop_zero, List.getLast?_map]
           rfl
